@@ -817,6 +817,99 @@ def exec (m : Machine) (pc : Nat) (instr : Instr) : M Ctl :=
     | _ => throw .invalidInstruction
   | .Meta _ => pure .next
 
+/-! ## the struct deserializer's walk over the definitions (`serialize.rs`)
+
+`DeserializeCtx::deserialize_struct` / `deserialize_value` follow the struct DEFINITIONS, not the
+input, so a definition that (transitively) contains itself used to recurse without bound — a host
+stack overflow for any payload.  The fixed code keeps the list of structs being deserialized
+(`open`) and returns `DeserializeError::RecursiveStruct` on re-entry.  `deserWalk` is that walk with
+the byte-level reads abstracted by an oracle stream (one bit per primitive read: did it succeed;
+one per option/result tag: which arm); entering struct `n` removes its definition from `avail`, so
+re-entering an open struct (and an unknown struct) finds no definition and is an error.  It is a
+total function: the recursion is well-founded on (number of definitions still available, size of the
+type being read).  (`exec .Deserialize` itself takes the codec's result as an environment answer;
+the byte-level codec is C26's subject.) -/
+
+def Ty.size : Ty → Nat
+  | .optional t => t.size + 1
+  | .result a b => a.size + b.size + 1
+  | _ => 1
+
+def fieldsSize : List (Nat × Ty) → Nat
+  | [] => 1
+  | (_, t) :: r => t.size + fieldsSize r + 1
+
+/-- what the type-directed struct deserializer has to read next -/
+inductive DItem where
+  | ty (t : Ty)
+  | fields (fs : List (Nat × Ty))
+
+def DItem.size : DItem → Nat
+  | .ty t => t.size
+  | .fields fs => fieldsSize fs
+
+inductive DRes where
+  | ok (rest : List Bool)
+  | err
+deriving Repr, DecidableEq
+
+/-- remove every definition of `n` -/
+def eraseDef {α} (n : Nat) : List (Nat × α) → List (Nat × α)
+  | [] => []
+  | (x, d) :: r => if x = n then eraseDef n r else (x, d) :: eraseDef n r
+
+theorem eraseDef_length_le {α} (n : Nat) : (l : List (Nat × α)) → (eraseDef n l).length ≤ l.length
+  | [] => by simp [eraseDef]
+  | (x, d) :: r => by
+    have := eraseDef_length_le n r
+    unfold eraseDef; split <;> simp <;> omega
+
+theorem eraseDef_length_lt {α} (n : Nat) : (avail : List (Nat × α)) → (findDef n avail).isSome →
+    (eraseDef n avail).length < avail.length
+  | [], h => by simp [findDef] at h
+  | (x, d) :: r, h => by
+    unfold eraseDef
+    by_cases hx : x = n
+    · simp only [hx, if_true, List.length_cons]
+      have := eraseDef_length_le n r; omega
+    · have hr : (findDef n r).isSome := by simpa [findDef, hx] using h
+      have := eraseDef_length_lt n r hr
+      simp only [hx, if_false, List.length_cons]; omega
+
+def deserWalk (avail : List (Nat × List (Nat × Ty))) (it : DItem) (o : List Bool) : DRes :=
+  match it with
+  | .ty (.struct n) =>
+    match h : findDef n avail with
+    | none => .err
+    | some items => deserWalk (eraseDef n avail) (.fields items) o
+  | .ty (.optional t) =>
+    match o with
+    | [] => .err
+    | false :: o' => .ok o'
+    | true :: o' => deserWalk avail (.ty t) o'
+  | .ty (.result a b) =>
+    match o with
+    | [] => .err
+    | true :: o' => deserWalk avail (.ty a) o'
+    | false :: o' => deserWalk avail (.ty b) o'
+  | .ty .unit => .ok o
+  | .ty .never => .err
+  | .ty _ =>
+    match o with
+    | true :: o' => .ok o'
+    | _ => .err
+  | .fields [] => .ok o
+  | .fields ((_, t) :: r) =>
+    match deserWalk avail (.ty t) o with
+    | .ok o' => deserWalk avail (.fields r) o'
+    | .err => .err
+termination_by (avail.length, it.size)
+decreasing_by
+  all_goals simp_wf
+  · apply Prod.Lex.left
+    exact eraseDef_length_lt n avail (by simp [h])
+  all_goals (apply Prod.Lex.right; simp [DItem.size, Ty.size, fieldsSize]; try omega)
+
 /-! ## error positions (`MachineError::with_position`, `RunState::source_location`)
 
 `CodeMap::span_from_instruction` + `SpannedText::{new, start_linecol}` of aranya-policy-module, which
